@@ -59,8 +59,12 @@ def _comp_fallback(rep):
     verdict, facts = C06.fallback_condition(fi, fb.test)
     rep.ob("O5.2", "SHAPE", fi, verdict, fb.test, "the component-aware strategy delegates to the exhaustive one exactly when the host has fewer components", facts, node=fb)
     # every other result of the component-aware strategy is assembled from per-component monomorphisms of the same predicate (subset of ALL)
-    adds = [c for c in walk_local(fi.node, into_nested=True) if isinstance(c, ast.Call) and norm(c.func) == "results.append"]
-    rep.ob("O5.2", "SHAPE", fi, len(adds) == 1, [norm(a) for a in adds], "combined matches are emitted at one place only (after every pattern component is placed)")
+    from ..facts import returns_of
+    rets = [r for r in returns_of(fi.node) if isinstance(r.value, ast.Name)]
+    res = rets[-1].value.id if rets else None
+    adds = [c for c in walk_local(fi.node, into_nested=True) if res and isinstance(c, ast.Call) and isinstance(c.func, ast.Attribute)
+            and norm(c.func.value) == res and c.func.attr in ("append", "extend", "insert")]
+    rep.ob("O5.2", "SHAPE", fi, len(adds) == 1 and adds[0].func.attr == "append", [norm(a) for a in adds], "combined matches are emitted at one place only (after every pattern component is placed)")
 
 
 def repeated(rep):
